@@ -24,10 +24,10 @@ type c06Case struct {
 }
 
 var clientStepGen = rapid.Custom(func(t *rapid.T) sim.Step {
-	return sim.Step{Op: rapid.SampledFrom([]string{"send", "recv", "closesend", "close", "cancel", "send", "recv", "send", "recv", "recvbad", "drain"}).Draw(t, "cop"), Size: sizeGen.Draw(t, "csize")}
+	return sim.Step{Op: rapid.SampledFrom([]string{"send", "recv", "closesend", "close", "cancel", "send", "recv", "send", "recv", "recvbad", "drain", "sendbad"}).Draw(t, "cop"), Size: sizeGen.Draw(t, "csize")}
 })
 var handlerStepGen = rapid.Custom(func(t *rapid.T) sim.Step {
-	return sim.Step{Op: rapid.SampledFrom([]string{"recv", "send", "recv", "send", "recv", "send", "recvbad"}).Draw(t, "hop"), Size: sizeGen.Draw(t, "hsize")}
+	return sim.Step{Op: rapid.SampledFrom([]string{"recv", "send", "recv", "send", "recv", "send", "recvbad", "sendbad"}).Draw(t, "hop"), Size: sizeGen.Draw(t, "hsize")}
 })
 
 // genRPC06 draws independent client and handler programs. Exclusions by construction:
@@ -51,6 +51,8 @@ func genRPC06(t *rapid.T, excl *string) sim.RPC {
 		if rapid.IntRange(0, 3).Draw(t, "hsend") > 0 {
 			p.Handler.Steps = append(p.Handler.Steps, sim.Step{Op: "send", Size: sizeGen.Draw(t, "hsize")})
 		}
+		// a request the application's encoding cannot marshal: Invoke fails after the stream was created
+		p.BadRequest = rapid.IntRange(0, 7).Draw(t, "badreq") == 0
 	} else {
 		p.Client.Steps = rapid.SliceOfN(clientStepGen, 0, 6).Draw(t, "csteps")
 		p.Handler.Steps = rapid.SliceOfN(handlerStepGen, 0, 5).Draw(t, "hsteps")
@@ -195,8 +197,11 @@ func runC06(c c06Case) (r pbt.Result) {
 			premise = false
 		}
 	}
-	early, softCancel, herr := false, false, false
+	early, softCancel, herr, badreq := false, false, false, false
 	for _, rp := range c.RPCs {
+		if rp.BadRequest {
+			badreq = true
+		}
 		for _, s := range rp.Client.Steps {
 			if s.Op == "cancel" && c.Cfg.Soft {
 				softCancel = true
@@ -233,7 +238,10 @@ func runC06(c c06Case) (r pbt.Result) {
 				return
 			}
 		}
-		r.NonTrivial = undelivered || early || softCancel || herr || forced > 0
+		r.NonTrivial = undelivered || early || softCancel || herr || forced > 0 || badreq
+	}
+	if badreq {
+		r.Label("request_not_marshallable")
 	}
 	if forced > 0 {
 		r.Label("forced_close")
